@@ -85,7 +85,7 @@ def obligations(tier):
                   claim='the constructor rejects the configuration (ValueError): no client is ever created'))
     obs.append(Ob('C19.certloader', 'harness.C19', 'cert_contexts', timeout=t, functions=F_CERT,
                   stubs=['repository test certificate tests/certificates/test_certificate.pem (self-signed) also serves as CA file'],
-                  bounds='CA file present / absent x mk_ssl_contexts / mk_ssl_contexts_from_folder x cipher string given / not (8 paths)',
+                  bounds='CA file present / absent x mk_ssl_contexts (cipher string given / not) / mk_ssl_contexts_from_folder (8 paths)',
                   claim='with a CA file both contexts have verify_mode == CERT_REQUIRED and the CA loaded (client verifies the server, '
                         'server demands and verifies a client certificate); client context is PROTOCOL_TLS_CLIENT, server context '
                         'PROTOCOL_TLS_SERVER'))
